@@ -386,7 +386,7 @@ def run(res, tier):
             res.bad("RND-1", f.pretty, "noise-free-path",
                     "%s draws a %s stream but has a returning path on which no noise is injected (no call to vec_znx_add_normal / vec_znx_big_add_normal or to a noise-injecting routine post-dominates the entry); %d callers inherit the defect"
                     % (f.pretty, "/".join(sorted(set().union(*[R[o] for o in relevant]))), len(failing) - 1), site=f.where())
-        res.floor("RND-1", "encryption routines", n1, 160)
+        res.floor("RND-1", "encryption routines", n1, 160, ref_min=120)
         # kernels: result-writing normalisation dominated by noise in the same loop
         kernels = sorted({f.uid for f, bi, role, og in eng.sink_sites if role == "error" and f.uid.startswith(("poulpy_core", "poulpy_bin_fhe", "poulpy_ckks"))})
         res.floor("RND-1", "noise kernels", len(kernels), 3)
@@ -493,7 +493,7 @@ def run(res, tier):
                 res.bad("RND-2", f.pretty, "role-mismatch:%s" % nm, "%s: parameter `%s` is documented as the %s stream but is used as %s" % (f.pretty, nm, want, "/".join(sorted(got))), site=f.where())
             else:
                 res.bad("RND-2", f.pretty, "role-mixed:%s" % nm, "%s: parameter `%s` (documented %s stream) is also used as %s" % (f.pretty, nm, want, "/".join(sorted(got - {want}))), site=f.where())
-        res.floor("RND-2", "named stream parameters", n2, 320)
+        res.floor("RND-2", "named stream parameters", n2, 320, ref_min=240)
         # (c)/(e) sink arguments
         for f, bi, role, og in eng.sink_sites:
             if not f.uid.startswith(("poulpy_core", "poulpy_bin_fhe", "poulpy_ckks")):
